@@ -15,17 +15,36 @@ theorem Mem.write_self (m : Mem α) (a : Int) : m.write a (m a) = m := by
   · rename_i h; rw [h]
   · rfl
 
+theorem ElemIt.addrs_succ_some {n : Nat} {it : ElemIt} {as : List Int} (h : ElemIt.addrs (n + 1) it = some as) :
+    ∃ it' rest, it.inc = some it' ∧ ElemIt.addrs n it' = some rest ∧ as = it.current :: rest := by
+  rw [ElemIt.addrs] at h
+  cases hi : it.inc with
+  | none => simp [hi] at h
+  | some it' =>
+    cases hr : ElemIt.addrs n it' with
+    | none => simp [hi, hr] at h
+    | some rest =>
+      simp [hi, hr] at h
+      exact ⟨it', rest, rfl, hr, h.symm⟩
+
 /-! ### sequential copy over a list of (destination, source) address pairs -/
 
 def copyList : List (Int × Int) → Mem α → Mem α
   | [], m => m
   | p :: ps, m => copyList ps (m.write p.1 (m p.2))
 
-theorem copyN_eq (n : Nat) (s d : ElemIt) (m : Mem α) :
-    ElemIt.copyN n s d m = copyList ((ElemIt.addrs n d).zip (ElemIt.addrs n s)) m := by
-  induction n generalizing s d m with
-  | zero => rfl
-  | succ n ih => simp only [ElemIt.copyN, ElemIt.addrs, List.zip_cons_cons, copyList, ih]
+theorem copyN_eq (n : Nat) (s d : ElemIt) (m : Mem α) (sA dA : List Int)
+    (hs : ElemIt.addrs n s = some sA) (hd : ElemIt.addrs n d = some dA) :
+    ElemIt.copyN n s d m = some (copyList (dA.zip sA) m) := by
+  induction n generalizing s d m sA dA with
+  | zero =>
+    simp only [ElemIt.addrs, Option.some.injEq] at hs hd
+    subst hs hd; rfl
+  | succ n ih =>
+    obtain ⟨s', sr, hs1, hs2, rfl⟩ := ElemIt.addrs_succ_some hs
+    obtain ⟨d', dr, hd1, hd2, rfl⟩ := ElemIt.addrs_succ_some hd
+    simp only [ElemIt.copyN, hs1, hd1, Option.bind_eq_bind, Option.bind_some, List.zip_cons_cons, copyList]
+    exact ih s' d' _ sr dr hs2 hd2
 
 theorem copyList_not_mem (ps : List (Int × Int)) (m : Mem α) (a : Int) (h : a ∉ ps.map Prod.fst) :
     copyList ps m a = m a := by
@@ -79,11 +98,18 @@ def swapList : List (Int × Int) → Mem α → Mem α
   | [], m => m
   | p :: ps, m => swapList ps ((m.write p.1 (m p.2)).write p.2 (m p.1))
 
-theorem swapN_eq (n : Nat) (a b : ElemIt) (m : Mem α) :
-    ElemIt.swapN n a b m = swapList ((ElemIt.addrs n a).zip (ElemIt.addrs n b)) m := by
-  induction n generalizing a b m with
-  | zero => rfl
-  | succ n ih => simp only [ElemIt.swapN, ElemIt.addrs, List.zip_cons_cons, swapList, ih]
+theorem swapN_eq (n : Nat) (a b : ElemIt) (m : Mem α) (aA bA : List Int)
+    (ha : ElemIt.addrs n a = some aA) (hb : ElemIt.addrs n b = some bA) :
+    ElemIt.swapN n a b m = some (swapList (aA.zip bA) m) := by
+  induction n generalizing a b m aA bA with
+  | zero =>
+    simp only [ElemIt.addrs, Option.some.injEq] at ha hb
+    subst ha hb; rfl
+  | succ n ih =>
+    obtain ⟨a', ar, ha1, ha2, rfl⟩ := ElemIt.addrs_succ_some ha
+    obtain ⟨b', br, hb1, hb2, rfl⟩ := ElemIt.addrs_succ_some hb
+    simp only [ElemIt.swapN, ha1, hb1, Option.bind_eq_bind, Option.bind_some, List.zip_cons_cons, swapList]
+    exact ih a' b' _ ar br ha2 hb2
 
 theorem swapList_not_mem (ps : List (Int × Int)) (m : Mem α) (a : Int) (h1 : a ∉ ps.map Prod.fst)
     (h2 : a ∉ ps.map Prod.snd) : swapList ps m a = m a := by
@@ -151,11 +177,18 @@ def moveList (moved : α) : List (Int × Int) → Mem α → Mem α
   | [], m => m
   | p :: ps, m => moveList moved ps ((m.write p.1 (m p.2)).write p.2 moved)
 
-theorem moveN_eq (moved : α) (n : Nat) (s d : ElemIt) (m : Mem α) :
-    ElemIt.moveN moved n s d m = moveList moved ((ElemIt.addrs n d).zip (ElemIt.addrs n s)) m := by
-  induction n generalizing s d m with
-  | zero => rfl
-  | succ n ih => simp only [ElemIt.moveN, ElemIt.addrs, List.zip_cons_cons, moveList, ih]
+theorem moveN_eq (moved : α) (n : Nat) (s d : ElemIt) (m : Mem α) (sA dA : List Int)
+    (hs : ElemIt.addrs n s = some sA) (hd : ElemIt.addrs n d = some dA) :
+    ElemIt.moveN moved n s d m = some (moveList moved (dA.zip sA) m) := by
+  induction n generalizing s d m sA dA with
+  | zero =>
+    simp only [ElemIt.addrs, Option.some.injEq] at hs hd
+    subst hs hd; rfl
+  | succ n ih =>
+    obtain ⟨s', sr, hs1, hs2, rfl⟩ := ElemIt.addrs_succ_some hs
+    obtain ⟨d', dr, hd1, hd2, rfl⟩ := ElemIt.addrs_succ_some hd
+    simp only [ElemIt.moveN, hs1, hd1, Option.bind_eq_bind, Option.bind_some, List.zip_cons_cons, moveList]
+    exact ih s' d' _ sr dr hs2 hd2
 
 theorem moveList_not_mem (moved : α) (ps : List (Int × Int)) (m : Mem α) (a : Int) (h1 : a ∉ ps.map Prod.fst)
     (h2 : a ∉ ps.map Prod.snd) : moveList moved ps m a = m a := by
@@ -259,11 +292,17 @@ theorem writeList_const (ps : List (Int × α)) (m : Mem α) (x : α) (hx : ∀ 
       · rw [Mem.write_same]; exact hx q (by simp)
       · exact absurd ha hm
 
-theorem ElemIt.storeN_eq (vals : List α) (d : ElemIt) (m : Mem α) :
-    ElemIt.storeN vals d m = writeList ((ElemIt.addrs vals.length d).zip vals) m := by
-  induction vals generalizing d m with
-  | nil => rfl
-  | cons x xs ih => simp only [ElemIt.storeN, List.length_cons, ElemIt.addrs, List.zip_cons_cons, writeList, ih]
+theorem ElemIt.storeN_eq (vals : List α) (d : ElemIt) (m : Mem α) (dA : List Int)
+    (hd : ElemIt.addrs vals.length d = some dA) :
+    ElemIt.storeN vals d m = some (writeList (dA.zip vals) m) := by
+  induction vals generalizing d m dA with
+  | nil =>
+    simp only [List.length_nil, ElemIt.addrs, Option.some.injEq] at hd
+    subst hd; rfl
+  | cons x xs ih =>
+    obtain ⟨d', dr, hd1, hd2, rfl⟩ := ElemIt.addrs_succ_some hd
+    simp only [ElemIt.storeN, hd1, Option.bind_eq_bind, Option.bind_some, List.zip_cons_cons, writeList]
+    exact ih d' _ dr hd2
 
 /-- the addresses an `array_iterator` visits in `n` steps of `++` (1-D: element addresses; D>1: row bases) -/
 def ArrIt.addrs : Nat → ArrIt → List Int
@@ -297,33 +336,46 @@ theorem ArrIt.storeN_eq (vals : List α) (it : ArrIt) (m : Mem α) :
 
 /-! ### reading and comparing -/
 
-theorem readN_eq (m : Mem α) (n : Nat) (it : ElemIt) : ElemIt.readN m n it = (ElemIt.addrs n it).map m := by
-  induction n generalizing it with
-  | zero => rfl
-  | succ n ih => simp only [ElemIt.readN, ElemIt.addrs, List.map_cons, ih]
-
-theorem equalN_iff [DecidableEq α] (m : Mem α) (n : Nat) (a b : ElemIt) :
-    ElemIt.equalN m n a b = true ↔ ∀ p ∈ (ElemIt.addrs n a).zip (ElemIt.addrs n b), m p.1 = m p.2 := by
-  induction n generalizing a b with
-  | zero => simp [ElemIt.equalN, ElemIt.addrs]
+theorem readN_eq (m : Mem α) (n : Nat) (it : ElemIt) (as : List Int) (h : ElemIt.addrs n it = some as) :
+    ElemIt.readN m n it = some (as.map m) := by
+  induction n generalizing it as with
+  | zero => simp only [ElemIt.addrs, Option.some.injEq] at h; subst h; rfl
   | succ n ih =>
-    simp only [ElemIt.equalN, ElemIt.addrs, List.zip_cons_cons, List.mem_cons]
+    obtain ⟨it', r, h1, h2, rfl⟩ := ElemIt.addrs_succ_some h
+    simp only [ElemIt.readN, h1, Option.bind_eq_bind, Option.bind_some, ih it' r h2, Option.pure_def, List.map_cons]
+
+theorem equalN_eq [DecidableEq α] (m : Mem α) (n : Nat) (a b : ElemIt) (aA bA : List Int)
+    (ha : ElemIt.addrs n a = some aA) (hb : ElemIt.addrs n b = some bA) :
+    ElemIt.equalN m n a b = some (decide (∀ p ∈ aA.zip bA, m p.1 = m p.2)) := by
+  induction n generalizing a b aA bA with
+  | zero =>
+    simp only [ElemIt.addrs, Option.some.injEq] at ha hb
+    subst ha hb; simp [ElemIt.equalN]
+  | succ n ih =>
+    obtain ⟨a', ar, ha1, ha2, rfl⟩ := ElemIt.addrs_succ_some ha
+    obtain ⟨b', br, hb1, hb2, rfl⟩ := ElemIt.addrs_succ_some hb
+    simp only [ElemIt.equalN, List.zip_cons_cons]
     by_cases h : m a.current = m b.current
-    · simp only [h, if_true, ih]
+    · simp only [h, if_true, ha1, hb1, Option.bind_eq_bind, Option.bind_some, ih a' b' ar br ha2 hb2,
+        Option.some.injEq]
+      apply decide_eq_decide.mpr
       constructor
       · intro hh p hp
-        rcases hp with rfl | hp
+        rcases List.mem_cons.mp hp with rfl | hp
         · exact h
         · exact hh p hp
-      · intro hh p hp; exact hh p (Or.inr hp)
-    · simp only [h, if_false, Bool.false_eq_true, false_iff]
-      intro hh; exact h (hh (a.current, b.current) (Or.inl rfl))
+      · intro hh p hp; exact hh p (List.mem_cons_of_mem _ hp)
+    · simp only [h, if_false, Option.some.injEq]
+      symm
+      apply decide_eq_false
+      intro hh; exact h (hh (a.current, b.current) (by simp))
 
-/-- index-list form of `equalN_iff` -/
-theorem equalN_map_iff [DecidableEq α] {ι : Type} (m : Mem α) (n : Nat) (a b : ElemIt) (L : List ι) (f g : ι → Int)
-    (ha : ElemIt.addrs n a = L.map f) (hb : ElemIt.addrs n b = L.map g) :
-    ElemIt.equalN m n a b = true ↔ ∀ i ∈ L, m (f i) = m (g i) := by
-  rw [equalN_iff, ha, hb, List.zip_map']
+theorem equalN_map_iff [DecidableEq α] {ι : Type} (m : Mem α) (f g : ι → Int) (L : List ι) (x y : ElemIt)
+    (hx : ElemIt.addrs L.length x = some (L.map f)) (hy : ElemIt.addrs L.length y = some (L.map g)) :
+    ElemIt.equalN m L.length x y = some (decide (∀ i ∈ L, m (f i) = m (g i))) := by
+  rw [equalN_eq m _ x y _ _ hx hy, List.zip_map']
+  simp only [Option.some.injEq]
+  apply decide_eq_decide.mpr
   simp only [List.mem_map]
   constructor
   · intro h i hi; exact h (f i, g i) ⟨i, hi, rfl⟩
@@ -383,6 +435,170 @@ theorem equalFlat_iff [DecidableEq α] (m : Mem α) (n : Nat) (a b : Int) :
       intro hh; apply h; simpa using hh 0 (by omega) (by omega)
 
 
--- VIEWLEVEL
+/-! ### view level: the loops of `elements()` over `boxIndices` -/
+
+theorem Ext.eqv_refl (e : Ext) : e.eqv e = true := by simp [Ext.eqv]
+
+theorem Exts.eqv_refl (es : List Ext) : Exts.eqv es es = true := by
+  induction es with
+  | nil => rfl
+  | cons e es ih => simp [Exts.eqv, Ext.eqv_refl, ih]
+
+theorem View.ext_eqv_of_exts_eq {a b : View} (h : a.exts = b.exts) (hne : a.lay ≠ []) : a.ext.eqv b.ext = true := by
+  cases ha : a.lay with
+  | nil => exact absurd ha hne
+  | cons d l =>
+    cases hb : b.lay with
+    | nil => simp [View.exts, Layout.exts, ha, hb] at h
+    | cons d' l' =>
+      simp only [View.exts, Layout.exts, ha, hb, List.map_cons, List.cons.injEq] at h
+      simp only [View.ext, ha, hb, h.1, Ext.eqv_refl]
+
+theorem View.mem_addrs_iff (v : View) (a : Int) : a ∈ (boxIndices v.exts).map v.addr ↔ v.InImage a := by
+  simp only [List.mem_map, View.InImage, mem_boxIndices]
+
+theorem View.numElements_eq_of_exts_eq {a b : View} (ha : a.lay.WF) (hb : b.lay.WF) (h : a.exts = b.exts) :
+    a.numElements = b.numElements := by
+  simp only [View.numElements, numElements_eq_nElems ha, numElements_eq_nElems hb]
+  exact congrArg nElems h
+
+theorem View.boxIndices_nil_of_isEmpty {v : View} (h : v.lay.isEmpty = true) : boxIndices v.exts = [] := by
+  cases hv : v.lay with
+  | nil => simp [hv, Layout.isEmpty] at h
+  | cons d l =>
+    simp only [hv, Layout.isEmpty, beq_iff_eq] at h
+    simp [View.exts, Layout.exts, hv, Dim.ext_of_nelems_zero h, boxIndices, Ext.size]
+
+theorem ElemRange.isEmpty_ofView (v : View) : (ElemRange.ofView v).isEmpty = v.lay.isEmpty := by
+  rw [ofView_eq]; simp [ElemRange.isEmpty, zeroBased_eq_map_zeroed, isEmpty_zeroed]
+
+/-- `dst.elements() = src.elements()` is the sequential copy over the common index list -/
+theorem ElemRange.assign_ofView (dst src : View) (m : Mem α) (hd : dst.lay.WF) (hs : src.lay.WF)
+    (hext : dst.exts = src.exts) :
+    (ElemRange.ofView dst).assign (ElemRange.ofView src) m =
+      some (copyList (((boxIndices dst.exts).map dst.addr).zip ((boxIndices dst.exts).map src.addr)) m) := by
+  obtain ⟨sb, se, hsb, hse, hsdiff, hssize, hsaddrs⟩ := elemit_kth src hs
+  obtain ⟨db, de, hdb, hde, hddiff, hdsize, hdaddrs⟩ := elemit_kth dst hd
+  have hnum := View.numElements_eq_of_exts_eq hd hs hext
+  unfold ElemRange.assign
+  rw [hdsize, hssize]
+  simp only [hnum, ne_eq, not_true_eq_false, if_false]
+  by_cases hemp : (ElemRange.ofView dst).isEmpty = true
+  · rw [if_pos hemp]
+    rw [ElemRange.isEmpty_ofView] at hemp
+    rw [View.boxIndices_nil_of_isEmpty hemp]; rfl
+  · rw [if_neg hemp, hsb, hse, hdb]
+    simp only [Option.bind_eq_bind, Option.bind_some]
+    have hlen : (se.diff sb).toNat = (boxIndices dst.exts).length := by
+      rw [hsdiff, hext, ← boxIndices_length src hs]; simp
+    rw [hlen]
+    exact copyN_eq _ sb db m _ _ (by rw [hext]; exact hsaddrs) hdaddrs
+
+theorem ElemRange.assignMoved_ofView (moved : α) (dst src : View) (m : Mem α) (hd : dst.lay.WF) (hs : src.lay.WF)
+    (hext : dst.exts = src.exts) :
+    (ElemRange.ofView dst).assignMoved moved (ElemRange.ofView src) m =
+      some (moveList moved (((boxIndices dst.exts).map dst.addr).zip ((boxIndices dst.exts).map src.addr)) m) := by
+  obtain ⟨sb, se, hsb, hse, hsdiff, hssize, hsaddrs⟩ := elemit_kth src hs
+  obtain ⟨db, de, hdb, hde, hddiff, hdsize, hdaddrs⟩ := elemit_kth dst hd
+  have hnum := View.numElements_eq_of_exts_eq hd hs hext
+  unfold ElemRange.assignMoved
+  rw [hdsize, hssize]
+  simp only [hnum, ne_eq, not_true_eq_false, if_false]
+  by_cases hemp : (ElemRange.ofView dst).isEmpty = true
+  · rw [if_pos hemp]
+    rw [ElemRange.isEmpty_ofView] at hemp
+    rw [View.boxIndices_nil_of_isEmpty hemp]; rfl
+  · rw [if_neg hemp, hsb, hse, hdb]
+    simp only [Option.bind_eq_bind, Option.bind_some]
+    have hlen : (se.diff sb).toNat = (boxIndices dst.exts).length := by
+      rw [hsdiff, hext, ← boxIndices_length src hs]; simp
+    rw [hlen]
+    exact moveN_eq moved _ sb db m _ _ (by rw [hext]; exact hsaddrs) hdaddrs
+
+/-- `swap(a, b)` on views is the sequential swap over the common index list -/
+theorem View.swap_eq (a b : View) (m : Mem α) (ha : a.lay.WF) (hb : b.lay.WF) (hne : a.lay ≠ [])
+    (hext : a.exts = b.exts) :
+    a.swap b m =
+      some (swapList (((boxIndices a.exts).map a.addr).zip ((boxIndices a.exts).map b.addr)) m) := by
+  obtain ⟨ab, ae, hab, hae, hadiff, hasize, haaddrs⟩ := elemit_kth a ha
+  obtain ⟨bb, be, hbb, hbe, hbdiff, hbsize, hbaddrs⟩ := elemit_kth b hb
+  unfold View.swap
+  cases hl : a.lay with
+  | nil => exact absurd hl hne
+  | cons d l =>
+    simp only [View.ext_eqv_of_exts_eq hext hne, if_true, hab, hae, hbb, Option.bind_eq_bind, Option.bind_some]
+    have hlen : (ae.diff ab).toNat = (boxIndices a.exts).length := by
+      rw [hadiff, ← boxIndices_length a ha]; simp
+    rw [hlen]
+    exact swapN_eq _ ab bb m _ _ haaddrs (by rw [hext]; exact hbaddrs)
+
+/-- `a.elements() == b.elements()` on views of equal extensions is element-wise equality over the index list -/
+theorem ElemRange.eq_ofView [DecidableEq α] (a b : View) (m : Mem α) (ha : a.lay.WF) (hb : b.lay.WF)
+    (hext : a.exts = b.exts) :
+    (ElemRange.ofView a).eq (ElemRange.ofView b) m =
+      some (decide (∀ idx ∈ boxIndices a.exts, m (b.addr idx) = m (a.addr idx))) := by
+  obtain ⟨ab, ae, hab, hae, hadiff, hasize, haaddrs⟩ := elemit_kth a ha
+  obtain ⟨bb, be, hbb, hbe, hbdiff, hbsize, hbaddrs⟩ := elemit_kth b hb
+  have hnum := View.numElements_eq_of_exts_eq ha hb hext
+  unfold ElemRange.eq
+  rw [hasize, hbsize]
+  simp only [hnum, ne_eq, not_true_eq_false, if_false, hbb, hbe, hab, Option.bind_eq_bind, Option.bind_some]
+  have hlen : (be.diff bb).toNat = (boxIndices a.exts).length := by
+    rw [hbdiff, hext, ← boxIndices_length b hb]; simp
+  rw [hlen]
+  rw [← hext] at hbaddrs
+  exact equalN_map_iff m b.addr a.addr (boxIndices a.exts) bb ab hbaddrs haaddrs
+
+theorem nodup_map_of_inj_on {ι β : Type} (L : List ι) (f : ι → β) (hnd : L.Nodup)
+    (hinj : ∀ i ∈ L, ∀ j ∈ L, f i = f j → i = j) : (L.map f).Nodup := by
+  induction L with
+  | nil => simp
+  | cons a L ih =>
+    have hnd' := List.nodup_cons.mp hnd
+    rw [List.map_cons, List.nodup_cons]
+    refine ⟨?_, ih hnd'.2 (fun i hi j hj => hinj i (List.mem_cons_of_mem _ hi) j (List.mem_cons_of_mem _ hj))⟩
+    intro hc
+    obtain ⟨j, hj, hfj⟩ := List.mem_map.mp hc
+    have := hinj j (List.mem_cons_of_mem _ hj) a (by simp) hfj
+    subst this
+    exact hnd'.1 hj
+
+/-- index tuples of a 1-D box -/
+theorem boxIndices_one (e : Ext) :
+    boxIndices [e] = (List.range e.size.toNat).map (fun (k : Nat) => [e.first + Int.ofNat k]) := by
+  simp only [boxIndices, List.map_cons, List.map_nil]
+  generalize e.size.toNat = n
+  induction n with
+  | zero => rfl
+  | succ n ih => rw [List.range_succ, List.flatMap_append, List.map_append, ih]; simp
+
+/-- D = 1: `begin()`, `++` visits the elements in index order -/
+theorem View.arr_addrs_one (v : View) (d : Dim) (hv : v.lay = [d]) (hd : d.WF) :
+    ArrIt.addrs v.size.toNat v.begin' = (boxIndices v.exts).map v.addr := by
+  have hsz : v.size = d.ext.size := by simp only [View.size, hv]; exact hd.size_eq
+  rw [ArrIt.addrs_eq, hsz]
+  simp only [View.exts, Layout.exts, hv, List.map_cons, List.map_nil, boxIndices_one, List.map_map, View.begin']
+  apply List.map_congr_left
+  intro k hk
+  simp only [Function.comp, addr_eq, hv, Layout.off]
+  rcases hd.cases with h0 | ⟨f, n, hn, hs, hf, hnn, he, _⟩
+  · rw [Dim.ext_of_nelems_zero h0] at hk; simp [Ext.size] at hk
+  · rw [he, hf]; simp only [Int.add_mul]; omega
+
+
+/-- the value of a view: its elements in canonical order -/
+theorem View.read_eq (v : View) (m : Mem α) (hv : v.lay.WF) (hne : v.lay ≠ []) :
+    v.read m = some ((boxIndices v.exts).map (fun idx => m (v.addr idx))) := by
+  obtain ⟨b, e, hb, he, hdiff, _, haddrs⟩ := elemit_kth v hv
+  unfold View.read
+  cases hl : v.lay with
+  | nil => exact absurd hl hne
+  | cons d l =>
+    simp only [ElemRange.read, hb, he, Option.bind_eq_bind, Option.bind_some]
+    have hlen : (e.diff b).toNat = (boxIndices v.exts).length := by
+      rw [hdiff, ← boxIndices_length v hv]; simp
+    rw [hlen, readN_eq m _ b _ haddrs, List.map_map]
+    rfl
+
 
 end Multi
